@@ -78,6 +78,7 @@ class Ref:
         self.ctx_stack = []  # ("obj", o) / ("cls",) in entry order
         self.n_exits = 0
         self.n_ops = 0
+        self.n_setcap = 0
         self.cap_default = True
         self.handles = []  # dict(obj, path, kinds, attached)
         for r in cfg.objects:
@@ -272,7 +273,7 @@ class Ref:
             self.cls_depth += 1
             self.ctx_stack.append(("cls",))
             self.cap_stack.append(ev[1])
-            if ev[1] is not None:
+            if ev[1] is not None and ev[1] < 10 ** 5:  # a huge capacity cannot force a flush here
                 self.cap_default = False
             return None, info
         if t == "exit_cls":
@@ -296,6 +297,15 @@ class Ref:
             return Expect("ok", None), info
         if t == "setcap":
             self.cap_default = False
+            self.n_setcap += 1
+            if ev[1] == 0 and (self.cls_depth or any(self.obj_depth)):
+                # capacity 0 forces EVERY modified file out, whatever the eviction policy
+                conflicts = self.flush_expect([r for r in range(len(self.disk)) if self.in_buf[r]])
+                info["conflicts"] = conflicts
+                self.revalidate()
+                if conflicts:
+                    return Expect("exc", exc="BufferedError"), info
+                return Expect("ok", None), info
             for r in range(len(self.disk)):
                 if self.in_buf[r] and self.changed_w[r]:
                     self.disk_known[r] = False
@@ -340,7 +350,7 @@ class Ref:
             [model.canon_json(d) for d in self.disk],
             [None if b is None else model.canon_json(b) for b in self.buf],
             self.in_buf, self.changed_w, self.ext_after, self.disk_known, self.touched,
-            self.obj_res, self.obj_depth, self.cls_depth, self.cap_stack, self.cap_default, self.ctx_stack,
+            self.obj_res, self.obj_depth, self.cls_depth, self.cap_stack, self.cap_default, self.ctx_stack, self.n_exits > 0, self.n_setcap,
             [(h["obj"], h["path"], h["kinds"], h["attached"]) for h in self.handles],
         ))
 
@@ -481,7 +491,7 @@ def compare_disk(ref, world, r):
     return "resource %d holds %r, expected %r" % (r, actual, want)
 
 
-def execute(cfg, history, oracles, hooks=None, keep_world=False):
+def execute(cfg, history, oracles, hooks=None, keep_world=False, alphabet=None):
     """Replay `history` on a fresh world; check `oracles` on the last event.
 
     oracles: set of names among
@@ -566,6 +576,8 @@ def execute(cfg, history, oracles, hooks=None, keep_world=False):
         res.digest = canon_mod.digest(world) + "|" + ref.snapshot()
         if hooks is not None and hasattr(hooks, "digest_extra"):
             res.digest += "|" + repr(hooks.digest_extra(run))
+        if alphabet is not None:
+            res.enabled = alphabet(ref)  # BEFORE the destructive probe
         if hooks is not None and hasattr(hooks, "probe"):
             res.violations.extend(hooks.probe(run) or [])
     finally:
@@ -624,6 +636,12 @@ def _teardown(world):
         bc = getattr(k, "_buffered_collections", None)
         if isinstance(bc, dict):
             bc.clear()
+        dc = env.default_capacity(world.cfg.clsname)
+        if dc is not None and k.get_buffer_capacity() != dc:
+            try:
+                k.set_buffer_capacity(dc)
+            except Exception:  # noqa: BLE001
+                pass
     finally:
         world.destroy()
 
@@ -682,9 +700,9 @@ def bfs(cfg, alphabet, depth, oracles, hooks=None, executor=None, max_transition
     st = Stats()
     if executor is None:
         def executor(c, h):
-            r = execute(c, h, oracles, hooks)
+            r = execute(c, h, oracles, hooks, alphabet=alphabet)
             return {"violations": r.violations, "digest": r.digest,
-                    "enabled": alphabet(r.ref), "outcome": _outcome_key(r.outcome)}
+                    "enabled": r.enabled, "outcome": _outcome_key(r.outcome)}
     root = executor(cfg, ())
     seen = {root["digest"]}
     st.states = 1
@@ -702,8 +720,11 @@ def bfs(cfg, alphabet, depth, oracles, hooks=None, executor=None, max_transition
             st.by_kind[ev[0] if ev[0] != "op" else "op:" + ev[2]] += 1
             st.outcomes[(ev[0] if ev[0] != "op" else ev[2], r["outcome"])] += 1
             st.max_depth = max(st.max_depth, len(h2))
-            if len(st.samples) < 3 and len(h2) == depth:
+            if len(st.samples) < 3:
                 st.samples.append([repr(e) for e in h2])
+            elif len(h2) > len(st.samples[0]):
+                st.samples[0] = [repr(e) for e in h2]
+                st.samples.sort(key=len)
             if r["violations"]:
                 for k, d in r["violations"]:
                     per_kind[k] += 1
